@@ -509,6 +509,29 @@ def scrapeParse (c : Cfg) : List Str → Except PyExc (List URLInfo)
       | .error e => .error e
       | .ok r => .ok (i :: r)
 
+/-- `ProcessingRule.add_extra_urls` (wpull/processor/rule.py, `--sitemaps`, level-0 URL): the two texts
+`'{scheme}://{hostname_with_port}/robots.txt'` and `…/sitemap.xml` -/
+def extraUrlTexts (i : URLInfo) : Except PyExc (List Str) :=
+  match i.hostnameWithPort with
+  | .error e => .error e
+  | .ok hwp =>
+    let site := (i.scheme.getD []) ++ [58, 47, 47] ++ hwp
+    .ok [site ++ [47, 114, 111, 98, 111, 116, 115, 46, 116, 120, 116],
+         site ++ [47, 115, 105, 116, 101, 109, 97, 112, 46, 120, 109, 108]]
+
+/-- `url_info = self.parse_url(text)` then `url_info.url`: `None.url` is an AttributeError -/
+def parsedUrlOf (c : Cfg) (t : Str) : Except PyExc Str :=
+  match parseOrLog c t with
+  | .error e => .error e
+  | .ok none => .error .AttributeError
+  | .ok (some j) => j.url
+
+/-- the URLs `add_extra_urls` queues for the parsed start URL `i` -/
+def extraUrls (c : Cfg) (i : URLInfo) : Except PyExc (List Str) :=
+  match extraUrlTexts i with
+  | .error e => .error e
+  | .ok ts => ts.mapM (parsedUrlOf c)
+
 /-- `wpull.url.urljoin(base, url, allow_fragments)` around the stdlib join
 `stdJoin allow_fragments base url` (parameter).  A fragment-only reference joined without fragment
 parsing is appended to the base document (repaired code; the stdlib would replace the last path segment). -/
